@@ -358,3 +358,72 @@ func (w *c15World) createGauge(appID uint64, from sdk.AccAddress, denom string) 
 	msg.Kind = &rewardstypes.MsgCreateGauge_LiquidityMetaData{LiquidityMetaData: &rewardstypes.LiquidtyGaugeMetaData{PoolId: 1, IsMasterPool: false, ChildPoolIds: []uint64{}}}
 	w.must(w.deliver(msg), "create gauge")
 }
+
+// ---------------------------------------------------------------------------------------------------------------
+// several apps whitelisted for first-generation liquidation, vaults of all of them interleaved or grouped in the one
+// global vault list. weak[a] vaults of app a+1 are opened at CR 2.0 (liquidatable once the collateral price halves),
+// strong[a] at CR 16.
+
+func (w *c15World) setupV1Multi(weak, strong []int, interleave bool) {
+	ak := w.app.AssetKeeper
+	for _, a := range []assettypes.Asset{
+		{Name: "CMDX", Denom: "ucmdx", Decimals: sdk.NewInt(1000000), IsOnChain: true, IsCdpMintable: true, IsOraclePriceRequired: true},
+		{Name: "CMST", Denom: "ucmst", Decimals: sdk.NewInt(1000000), IsOnChain: true, IsCdpMintable: true, IsOraclePriceRequired: true},
+		{Name: "HARBOR", Denom: "uharbor", Decimals: sdk.NewInt(1000000), IsOnChain: true, IsCdpMintable: true},
+	} {
+		w.must(ak.AddAssetRecords(w.ctx, a), "asset "+a.Name)
+	}
+	w.must(ak.AddPairsRecords(w.ctx, assettypes.Pair{AssetIn: 1, AssetOut: 2}), "pair")
+	w.setPrice(1, 2000000, true)
+	w.setPrice(2, 1000000, true)
+	names := []string{"harbor", "commodo", "cswap", "fourth"}
+	type job struct {
+		app    uint64
+		amtIn  int64
+	}
+	var perApp [][]job
+	for a := range weak {
+		app := uint64(a + 1)
+		w.must(ak.AddAppRecords(w.ctx, assettypes.AppData{Name: names[a], ShortName: names[a][:3], MinGovDeposit: sdk.NewInt(0)}), "app")
+		w.must(ak.WasmAddExtendedPairsVaultRecords(w.ctx, &bindings.MsgAddExtendedPairsVault{
+			AppID: app, PairID: 1, StabilityFee: c15Dec("0.01"), ClosingFee: c15Dec("0"), LiquidationPenalty: c15Dec("0.12"), DrawDownFee: c15Dec("0.01"),
+			IsVaultActive: true, DebtCeiling: sdk.NewInt(1000000000000), DebtFloor: sdk.NewInt(1000000), MinCr: c15Dec("1.5"),
+			PairName: "CMDX-" + string(rune('A'+a)), AssetOutOraclePrice: true, AssetOutPrice: 1000000, MinUsdValueLeft: 1000000}), "ext pair")
+		w.must(w.app.LiquidationKeeper.WasmWhitelistAppIDLiquidation(w.ctx, app), "whitelist v1")
+		w.app.AuctionKeeper.SetAuctionParams(w.ctx, auctiontypes.AuctionParams{AppId: app, AuctionDurationSeconds: 300, Buffer: c15Dec("1.2"),
+			Cusp: c15Dec("0.6"), Step: sdk.NewIntFromUint64(1), PriceFunctionType: 1, SurplusId: 1, DebtId: 2, DutchId: 3, BidDurationSeconds: 300})
+		var js []job
+		for i := 0; i < weak[a]; i++ {
+			js = append(js, job{app, 10000000})
+		}
+		for i := 0; i < strong[a]; i++ {
+			js = append(js, job{app, 80000000})
+		}
+		perApp = append(perApp, js)
+	}
+	var order []job
+	if interleave {
+		for i := 0; ; i++ {
+			any := false
+			for _, js := range perApp {
+				if i < len(js) {
+					order = append(order, js[i])
+					any = true
+				}
+			}
+			if !any {
+				break
+			}
+		}
+	} else {
+		for _, js := range perApp {
+			order = append(order, js...)
+		}
+	}
+	for i, j := range order {
+		u := c15Addr(200 + i)
+		w.fund(u, "ucmdx", j.amtIn)
+		w.must(w.deliver(&vaulttypes.MsgCreateRequest{From: u.String(), AppId: j.app, ExtendedPairVaultId: j.app,
+			AmountIn: sdk.NewInt(j.amtIn), AmountOut: sdk.NewInt(10000000)}), "multi-app vault create")
+	}
+}
